@@ -436,6 +436,13 @@ def _graph_memo(run, ix, SG, EF):
                       key=key_of("C09-R5", "readonly"))
     # memo lookups go through the Cache API (verify): `key in self._cache` / `self._cache[key]`
     txt = ast.unparse(get.node)
+    # private methods / module helpers the lookup hands its work to are read as part of it (`self._compose_path(...)`)
+    for c_ in ast.walk(get.node):
+        if isinstance(c_, ast.Call) and isinstance(c_.func, ast.Attribute) and isinstance(c_.func.value, ast.Name) and c_.func.value.id == "self" \
+                and c_.func.attr.startswith("_") and c_.func.attr in SG.methods:
+            txt += "\n" + ast.unparse(SG.methods[c_.func.attr].node)
+        if isinstance(c_, ast.Call) and isinstance(c_.func, ast.Name) and c_.func.id.startswith("_") and c_.func.id in get.module.functions:
+            txt += "\n" + ast.unparse(get.module.functions[c_.func.id].node)
     ok = "if key in self._cache:" in txt and "return self._cache[key]" in txt and "self._cache.cache" not in txt
     run.instance("R5", get.where, "memo lookup goes through the verifying Cache API", ok)
     if not ok:
@@ -455,6 +462,18 @@ def _graph_memo(run, ix, SG, EF):
     for st in ast.walk(add.node):
         if isinstance(st, ast.If) and any(isinstance(x, ast.Return) and isinstance(x.value, ast.Constant) and x.value.value is False for x in st.body):
             calls = [c for c in ast.walk(st.test) if isinstance(c, ast.Call) and ast.unparse(c.func).endswith("allclose")]
+            subject = ast.unparse(st.test)
+            if not calls:
+                # the comparison may live in a private helper of the module (`if _same_edge(old, new): return False`)
+                for c in ast.walk(st.test):
+                    if isinstance(c, ast.Call) and isinstance(c.func, ast.Name) and c.func.id in add.module.functions:
+                        h_ = add.module.functions[c.func.id]
+                        calls += [x for x in ast.walk(h_.node) if isinstance(x, ast.Call) and ast.unparse(x.func).endswith("allclose")]
+                        subject += " " + ast.unparse(h_.node)
+            if not calls:
+                run.instance("R5", add.where, f"no-change exit `{ast.unparse(st.test)[:60]}`: no closeness test of a recognised form - NOT decided", True, nontrivial=False)
+                run.assume("add_edge: no-change exit not recognised")
+                continue
             ok = True
             why = []
             for c in calls:
@@ -473,7 +492,8 @@ def _graph_memo(run, ix, SG, EF):
                         okc = False
                 ok = ok and okc
                 why.append(f"{ast.unparse(c)[:70]} -> {'absolute <= 1e-8' if okc else 'relative or loose tolerance'}")
-            geom = "edge.get('geometry') == kwargs.get('geometry')" in ast.unparse(st.test)
+            import re as _re
+            geom = _re.search(r"\w+\.get\('geometry'\) == \w+\.get\('geometry'\)", subject) is not None
             ok = ok and bool(calls) and geom
             run.instance("R5", add.where, f"no-change exit: {why}; geometry compared: {geom}", ok)
             if not ok:
